@@ -72,6 +72,7 @@ def handle (st : DState) (l : Line) : Option (DState × Except String String) :=
     match l.nat "n" with
     | .ok n => ret { st with redis := l.get "kind" == "redis", mem := MemStore.init n, red := {} } (.ok "ok\ttrivial")
     | .error e => ret st (.error e)
+  | "st.fail" => ret st (.ok (if st.redis then "ok\ttrivial" else "n/a\ttrivial"))   -- the Redis behind the store is switched off / on: no state change
   | "st.clock" =>
     match l.int "t" with
     | .ok t => ret { st with clock := t } (.ok "ok\ttrivial")
